@@ -366,7 +366,7 @@ class Check:
             self.log("harness", name, "BUILD FAILED")
             return
         args = ["--tier", self.tier, "--seed", str(self.seed)] + hs.get("args", [])
-        h = run_harness(name, args, timeout=hs.get("timeout", 1500 if self.tier == "quick" else 6000))
+        h = run_harness(name, args, timeout=hs.get("timeout", 1500 if self.tier == "quick" else 6000), env=hs.get("env"))
         self.log("harness %s rc=%d corr-lines=%d oracle pass=%d fail=%d" % (name, h.rc, len(h.ops), h.passed, len(h.fails)))
         self.cov["stats"][name] = h.stats
         self.cov["samples"] += h.samples
@@ -380,6 +380,12 @@ class Check:
                 self.fails.append((key + (":timeout" if h.rc == 124 else ""), rep))
             else:
                 self.broken.append({"what": "harness %s exited with %d" % (name, h.rc), "detail": h.tail[-1500:]})
+        # coverage floor: a harness that ran to completion but exercised nothing checks nothing
+        if h.rc == 0:
+            if hs.get("driver") and not h.ops:
+                self.broken.append({"what": "harness %s produced no correspondence lines" % name, "detail": h.tail[-800:]})
+            elif not hs.get("driver") and h.passed + len(h.fails) == 0:
+                self.broken.append({"what": "harness %s evaluated no oracle" % name, "detail": h.tail[-800:]})
         if hs.get("driver") and lean_ok and h.ops:
             rc, got, err = run_driver(hs["driver"], h.ops, hs.get("driver_args"))
             mism, nseq, nontriv = compare(h.ops, h.exp, got, hs.get("reset_prefix", "reset"))
